@@ -13,7 +13,15 @@ from ..models import Sink, Src
 from ..sym import SymBool, SymBytes, SymInt, W, byte_of
 
 
-def tier_opts(tier):
+def tier_opts(tier, prop=None):
+    o = _tier_opts(tier)
+    if prop == "C06":  # one path per read call: cheap paths, more of them
+        o["per_shape_paths"] = 120 if tier == "quick" else 2000
+        o["class_paths"] = 120 if tier == "quick" else 6000
+    return o
+
+
+def _tier_opts(tier):
     if tier == "quick":
         return dict(regions=shapes.REGIONS_QUICK, max_array=2, max_shapes=60, max_dev=1, per_shape_paths=24,
                     class_paths=150, class_seconds=25)
@@ -138,23 +146,29 @@ class C06(EntityHarness):
             c.outcome = "refused"
             return []
         data = SymBytes(sink.items)
-        total = data.sym_len()
-        from ..sym import sym_var
-
-        k, _ = sym_var("cut", 0, 2**36)
-        c.assume(k < total)  # strict prefix (zero-width encodings have none: path aborts)
-        c.notes["cut"] = k
-        src = Src(data, limit=k)
+        src = Src(data, cut=True)
+        c.notes["src"] = src
         try:
             y = self.r(src)
         except self.BufferUnderflow:
+            if src.cut_at is None:
+                raise Violation("complete_input_decodes", {"exception": "BufferUnderflow"})
+            c.notes["cut"] = src.cut_at
             c.outcome = "BufferUnderflow"
             return [("prefix_raises_BufferUnderflow", True)]
         except Unsupported:
             raise
         except Exception as e:
+            if src.cut_at is None:
+                raise Violation("complete_input_decodes", {"exception": type(e).__name__})
+            c.notes["cut"] = src.cut_at
             c.outcome = "other:" + type(e).__name__
             raise Violation("prefix_raises_BufferUnderflow", {"exception": type(e).__name__, "msg": str(e)[:200]})
+        if src.cut_at is None:
+            # no read fell short: the whole encoding was available - not a strict prefix
+            c.outcome = "complete_input"
+            return [("complete_input_decodes", True)]
+        c.notes["cut"] = src.cut_at
         c.outcome = "returned"
         raise Violation("prefix_raises_BufferUnderflow", {"returned": True})
 
@@ -249,7 +263,7 @@ def check(prop, tier):
 
     t0 = time.time()
     rep = install.install()
-    opts = tier_opts(tier)
+    opts = tier_opts(tier, prop)
     classes = shapes.all_entity_classes()
     targets = shapes.signature_representatives(classes) if tier == "quick" else classes
     if os.environ.get("VERIF_LIMIT"):
